@@ -1265,8 +1265,9 @@ void OPNMIDIplay::noteUpdate(size_t midCh,
         {
             OpnChannel::users_iterator d = m_chipChannels[c].find_user(my_loc);
 
-            // Don't bend a sustained note
-            if(d.is_end() || (d->value.sustained == OpnChannel::LocationData::Sustain_None))
+            // Don't bend a released note that only the pedal holds; a key that is still down is
+            // re-pitched also when the sostenuto pedal has marked it
+            if(d.is_end() || ((d->value.sustained & OpnChannel::LocationData::Sustain_Pedal) == 0))
             {
                 MIDIchannel &chan = m_midiChannels[midCh];
                 double midibend = chan.bend * chan.bendsense;
